@@ -466,9 +466,20 @@ pub fn run_validate(ctx: &mut Ctx) {
                     }
                     let _ = mi;
                 }
+                // a footer may also NAME another hash (truthful tables, foreign cashash): validated under the object's own hash and
+                // under the named one
+                let foreign = rng.chance(1, 6);
+                if foreign { f.cashash = other; }
                 let mut m = region; m.extend_from_slice(&f.bytes());
                 emit(ctx, &rt, &m, &b.hash, "structured-footer", &replay);
+                if foreign { emit(ctx, &rt, &m, &other, "structured-footer-foreign-hash", &replay); }
             }
+        }
+        {
+            let mut f = FooterV1::of(&b); f.cashash = other;
+            let mut m = b.obj[..clen].to_vec(); m.extend_from_slice(&f.bytes());
+            emit(ctx, &rt, &m, &other, "foreign-hash-footer", &replay);
+            emit(ctx, &rt, &m, &b.hash, "foreign-hash-footer", &replay);
         }
         // trailing bytes, inflated counts
         let mut t = b.obj.clone(); let k = rng.range(1, 9) as usize; t.extend_from_slice(&rng.bytes(k));
